@@ -13,7 +13,8 @@ THEOREMS = [
     "Sb.C03.container_find_NF", "Sb.C03.rth_init_NF", "Sb.C03.rth_getPoint_NF", "Sb.C03.rth_evaluateAt_NF",
     "Sb.C03.yaw_init_NF", "Sb.C03.yaw_build_NF", "Sb.C03.lights_step_total", "Sb.C03.lights_seekLoop_only_fuel",
     "Sb.Proofs.buildSegment_total", "Sb.Proofs.traj_tiling0", "Sb.Proofs.walkLoop_eq", "Sb.C19.varuint_reads_below_n",
-    "Sb.C03.fresh_seek_returns", "Sb.C03.ended_seek_returns", "Sb.C03.machine_terminates_seek_returns", "Sb.C03.machine_runs_seek_returns", "Sb.C03.seekLoop_returns"]
+    "Sb.C03.fresh_seek_returns", "Sb.C03.ended_seek_returns", "Sb.C03.machine_terminates_seek_returns", "Sb.C03.machine_runs_seek_returns", "Sb.C03.seekLoop_returns",
+    "Sb.C03.reachable_seek_returns", "Sb.C03.machine_history_seek_returns", "Sb.C03.seekLoop_returns_par", "Sb.C03.seekLoop_returns_dead"]
 RULE = ("show files: fixtures and generated files, every prefix and single-byte edit with {00,01,7f,80,ff,+1,-1} of the small ones, "
         "structural and random multi-byte mutations, random strings up to 64 KiB (thorough); through both loading routes for all four "
         "kinds with the full query battery (positions/velocities/accelerations, durations, bounding box, take-off/landing proposals, "
